@@ -169,6 +169,7 @@ func grpcHistory(h *H, prop string, steps int, malformed bool) {
 		return strconv.Itoa(g.intn(max))
 	}
 	setup := g.intn(4) != 0 // most histories start from created collections
+	scenario := g.intn(2) == 0
 	for s := 0; s < steps; s++ {
 		done++
 		ctx, cancel := ctxT()
@@ -180,6 +181,43 @@ func grpcHistory(h *H, prop string, steps int, malformed bool) {
 			} else {
 				_, err := env.tv.Create(ctx, &trustvectorpb.CreateRequest{Id: id})
 				w.Str("vcreate").Str(id).Bar().Str(codeTok(err)).Str(id)
+			}
+			cancel()
+			continue
+		}
+		if prop == "C17" && setup && s >= 4 && s < 10 && scenario {
+			// provenance scenario: every order of the four timestamps, then a compute, then read everything back
+			tsOf := func() []uint64 { return []uint64{uint64(g.intn(4)) * 25} }
+			switch s {
+			case 4:
+				id, ts := "m1", tsOf()
+				es := []*trustmatrixpb.Entry{{Truster: "0", Trustee: "1", Value: 1}, {Truster: "1", Trustee: "0", Value: 2}, {Truster: "1", Trustee: "2", Value: 1}}
+				_, err := env.tm.Update(ctx, &trustmatrixpb.UpdateRequest{Header: &trustmatrixpb.Header{Id: &id, TimestampQwords: ts}, Entries: es})
+				w.Str("mupdate").Str(id).qwords(ts).Int(len(es))
+				for _, e := range es {
+					w.Str(atoiTok(e.Truster)).Str(atoiTok(e.Trustee)).F(e.Value)
+				}
+				w.Bar().Str(codeTok(err))
+			case 5, 6, 7:
+				id := []string{"p", "g", "gp"}[s-5]
+				ts := tsOf()
+				es := []*trustvectorpb.Entry{{Trustee: strconv.Itoa(g.intn(3)), Value: float64(g.intn(4) + 1)}}
+				_, err := env.tv.Update(ctx, &trustvectorpb.UpdateRequest{Header: &trustvectorpb.Header{Id: &id, TimestampQwords: ts}, Entries: es})
+				w.Str("vupdate").Str(id).qwords(ts).Int(len(es))
+				for _, e := range es {
+					w.Str(atoiTok(e.Trustee)).F(e.Value)
+				}
+				w.Bar().Str(codeTok(err))
+			case 8:
+				p := &computepb.Params{LocalTrustId: "m1", PreTrustId: "p", GlobalTrustId: "g", PositiveGlobalTrustId: "gp"}
+				if g.intn(2) == 0 {
+					p.PreTrustId = ""
+				}
+				_, err := env.cp.BasicCompute(ctx, &computepb.BasicComputeRequest{Params: p})
+				w.Str("compute").Int(1).Str("m1").Str(orDash(p.PreTrustId)).optF(nil).optF(nil).Str("g").Int(0).Str("gp").Bar().Str(codeTok(err))
+			case 9:
+				w.Str("vget").Str("gp").Bar()
+				emitVGet(env, ctx, w, "gp")
 			}
 			cancel()
 			continue
@@ -214,10 +252,11 @@ func grpcHistory(h *H, prop string, steps int, malformed bool) {
 			var es []*trustmatrixpb.Entry
 			for i := 0; i < n; i++ {
 				a, b := idx(dim), idx(dim)
-				if seen[[2]string{a, b}] {
+				// batches have distinct coordinates (as the property quantifies): dedupe by parsed value
+				if seen[[2]string{atoiTok(a), atoiTok(b)}] && atoiTok(a) != "x" && atoiTok(b) != "x" {
 					continue
 				}
-				seen[[2]string{a, b}] = true
+				seen[[2]string{atoiTok(a), atoiTok(b)}] = true
 				v := float64(g.intn(32)) / 4
 				if g.intn(5) == 0 {
 					v = 0
@@ -276,10 +315,10 @@ func grpcHistory(h *H, prop string, steps int, malformed bool) {
 			var es []*trustvectorpb.Entry
 			for i := 0; i < n; i++ {
 				a := idx(dim)
-				if seen[a] {
+				if seen[atoiTok(a)] && atoiTok(a) != "x" {
 					continue
 				}
-				seen[a] = true
+				seen[atoiTok(a)] = true
 				v := float64(g.intn(32)+1) / 4
 				if g.intn(6) == 0 {
 					v = 0
@@ -379,7 +418,7 @@ func runGrpc(prop string) func(h *H) {
 	return func(h *H) {
 		n := h.budget(200, 4000)
 		for k := 0; k < n; k++ {
-			steps := h.g.intn(h.budget(24, 80)) + 6
+			steps := h.g.intn(h.budget(24, 80)) + 12
 			grpcHistory(h, prop, steps, false)
 		}
 	}
